@@ -160,7 +160,10 @@ def _sum_outer(x):
 
 def _eigh(a, b, dim):
   try:
-    return scipy.sparse.linalg.eigsh(a, k=dim, M=b, which='LA')
+    # a fixed start vector: ARPACK otherwise draws a random one, which makes
+    # two identical fits differ
+    return scipy.sparse.linalg.eigsh(a, k=dim, M=b, which='LA',
+                                    v0=np.ones(a.shape[0]))
   except np.linalg.LinAlgError:
     pass  # scipy already tried eigh for us
   except (ValueError, scipy.sparse.linalg.ArpackNoConvergence):
